@@ -41,6 +41,15 @@ def gen_source(c, indent=''):
             lines += [f'{ind}def {name}({sig}){ret}:', f'{ind}    """doc of {name}"""', f'{ind}    return x']
         elif k == 'property':
             ann, has_set, ann_set = m[1], m[2], (m[3] if len(m) > 3 else m[1])
+            if len(m) > 4 and m[4]:
+                # property(fget, fset, doc=...) with a docstring of its own: the getter has none ('nodoc') or another one ('other')
+                gdoc = [] if m[4] == 'nodoc' else [f'{ind}    """internal accessor, see {name}"""']
+                lines += [f'{ind}def _get_{name}(self){" -> int" if ann else ""}:'] + gdoc + [f'{ind}    return getattr(self, "_{name}", 0)']
+                if has_set:
+                    lines += [f'{ind}def _set_{name}(self, v{": int" if ann_set else ""}):', f'{ind}    self._{name} = v']
+                lines += [f'{ind}{name} = property(_get_{name}, {"_set_" + name if has_set else "None"}, doc="doc of {name}")',
+                          f'{ind}del _get_{name}' + (f', _set_{name}' if has_set else '')]
+                continue
             lines += [f'{ind}@property', f'{ind}def {name}(self){" -> int" if ann else ""}:', f'{ind}    """doc of {name}"""',
                       f'{ind}    return getattr(self, "_{name}", 0)']
             if has_set:
@@ -154,6 +163,9 @@ def observe(cls, c, before, prefix=''):
                 continue
             meta.append(f.__name__ == g.__name__ and f.__doc__ == g.__doc__ and
                         str(inspect.signature(f)) == str(inspect.signature(g)) and f.__qualname__ == g.__qualname__)
+        if isinstance(b_attr, (property, classmethod, staticmethod)):
+            # the descriptor's own docstring (a property may have been given one that is not its getter's)
+            meta.append(getattr(a, '__doc__', None) == getattr(b_attr, '__doc__', None))
         o['metadata_kept'] = all(meta)
         if m[0] == 'nested':
             nb = {n: v for n, v in snapshot_nested(before, prefix + name + '.').items()}
